@@ -73,9 +73,14 @@ P0Inv(y) == P0Pow(y, 31)
 ASSUME \A x \in {<<0,1>>, <<\h8000,0>>, <<\h1234,\h5678>>, <<65535,65535>>} : P0(P0Inv(x)) = x /\ P0Inv(P0(x)) = x
 Round1BothZero(v, w) == FF(WAdd(TT1C(v), WXor(w[1], w[5])), v[1], WRotl(v[2], 9), 1) = <<0,0>>
                         /\ GG(P0(WAdd(TT2C(v), w[1])), v[5], WRotl(v[6], 19), 1) = <<0,0>>
+\* ---- and a fourth: the three-operand SUM inside SS1 of round 1, (A <<< 12) + E + (T_1 <<< 1), is EXACTLY 2^32 or 2^33 (its 32-bit value is 0 with one or
+\*      two carries out): a reduction written with > instead of >=, or a saturating conversion, goes wrong exactly there.  After round 0, A = TT1 and
+\*      E = P0(TT2) are free (W_4 and W_0), so PlanSM3 solves for it. ----
+SumCarry3(a, b, c) == ((a[2] + b[2] + c[2]) \div 65536 + a[1] + b[1] + c[1]) \div 65536            \* carry out of the 32-bit sum a + b + c: 0, 1 or 2
+Round1SS1Wraps(v, w) == WAdd3(WRotl(WAdd(TT1C(v), WXor(w[1], w[5])), 12), P0(WAdd(TT2C(v), w[1])), WRotl(T(1), 1)) = <<0,0>>
 \* message of 64 bytes (first block) or 128 bytes (second block, chaining value after the first)
-CraftedValue(m) == IF Len(m) = 64 THEN Round0Special(IV, WordsOf(m, 0)) \/ Round1BothZero(IV, WordsOf(m, 0))
-                   ELSE IF Len(m) = 128 THEN Round0Special(CF(IV, m, 0), WordsOf(m, 64)) \/ Round1BothZero(CF(IV, m, 0), WordsOf(m, 64)) ELSE FALSE
+CraftedValue(m) == IF Len(m) = 64 THEN Round0Special(IV, WordsOf(m, 0)) \/ Round1BothZero(IV, WordsOf(m, 0)) \/ Round1SS1Wraps(IV, WordsOf(m, 0))
+                   ELSE IF Len(m) = 128 THEN Round0Special(CF(IV, m, 0), WordsOf(m, 64)) \/ Round1BothZero(CF(IV, m, 0), WordsOf(m, 64)) \/ Round1SS1Wraps(CF(IV, m, 0), WordsOf(m, 64)) ELSE FALSE
 \* ---- padding (standard): bit "1", k zero bits with l+1+k = 448 mod 512, 64-bit length ----
 \* byte level: 0x80, z zero bytes with (len+1+z) = 56 mod 64, eight length bytes.
 \* The length is given as lhi*2^24 + llo (llo < 2^24) so that bit lengths >= 2^32 are expressible in 32-bit TLC integers.
